@@ -950,12 +950,15 @@ fn classify_divergence(w: &World, ci: usize, g: usize, chain: &[usize], states: 
     if c.restarts > 0 {
         preds.insert("restarted".into());
     }
-    // depth at first offer of the winner
-    if let Some(Some(st)) = first_offer
-        && st.1 > s.1
-        && (st.1 - s.1) as usize > sim.retention
-    {
-        preds.insert("fork-deeper-than-retention".into());
+    // depth of the fork when the winner was first offered: the snapshot of epoch s is pruned as soon
+    // as M has moved more than `retention` epochs past it - what counts is the HIGHEST epoch M had
+    // reached before that first offer (it may have rolled back part of the way since)
+    if let Some(Some(st)) = first_offer {
+        let fo_seq = c.first_offer_seq.get(&wi).copied().unwrap_or(usize::MAX);
+        let highest = c.transitions.iter().zip(c.transition_seq.iter()).filter(|(t, sq)| t.0.0 == g && **sq < fo_seq).map(|(t, _)| t.2.1).max().unwrap_or(0).max(st.1);
+        if highest > s.1 && (highest - s.1) as usize > sim.retention {
+            preds.insert("fork-deeper-than-retention".into());
+        }
     }
     if preds.is_empty() {
         preds.insert("unexplained".into());
